@@ -84,7 +84,7 @@ def _report(ctx, site, psi_like, J, D, scale=1.0, extra=None, key=None):
         ctx.violation(site, "derivative routine differs from the derivative of the map (50-digit reference)", d, key=key)
 
 
-def run_case(spec, ctx):
+def _run_case(spec, ctx):
     env.import_cardillo()
     import cardillo.math.rotations as R
     from vlib import mpref
@@ -285,3 +285,19 @@ def run_case(spec, ctx):
     ctx.cls(f"kind:{kind}")
     ctx.sig([kind, first], nontrivial=nontrivial)
     ctx.sample({"kind": kind, "first_point": first})
+
+
+
+def run_case(spec, ctx):
+    """an exception raised inside cardillo for an input of the stated domain refutes the property for that input (the map does
+    not yield a rotation / the routine does not return a derivative); harness errors still propagate"""
+    try:
+        return _run_case(spec, ctx)
+    except Exception as e:
+        from vlib.rodgen import raised_in_cardillo
+        inside, where = raised_in_cardillo(e)
+        if not inside:
+            raise
+        ctx.mon("exception")
+        ctx.violation(where.split(" ")[-1], "raises for an input inside the stated domain", {"kind": spec.get("kind"), "raised_at": where, "error": f"{type(e).__name__}: {e}"[:300]})
+        ctx.sig([spec, "raised"], nontrivial=True)
